@@ -90,10 +90,9 @@ def configs(tier):
                 c("standalone", ["rep", "mid", "mid"], 1, (0, 2)),
                 c("device", ["wide", "mid"], 1), c("device", ["mid", "wide"], 1), c("device", ["full", "full"], 0),
                 c("device", ["rep", "mid", "mid"], 1, (0, 2))]
-    return [c("standalone", ["wide", "mid"], 2, (0, 1)), c("standalone", ["full", "full"], 1), c("standalone", ["mid", "wide"], 1, (0, 2)),
-            c("standalone", ["rep", "mid", "mid"], 1), c("standalone", ["mid", "rep", "full"], 1), c("standalone", ["mid", "mid", "rep"], 1, (0, 3)),
-            c("device", ["wide", "mid"], 2, (0, 1)), c("device", ["full", "full"], 1), c("device", ["mid", "wide"], 1, (0, 2)),
-            c("device", ["rep", "mid", "mid"], 1), c("device", ["mid", "rep", "full"], 1), c("device", ["mid", "mid", "rep"], 1, (0, 3))]
+    three = [(["wide", "full"], 1, (0,)), (["full", "wide"], 1, (0,)), (["wide", "mid"], 2, (0, 1)), (["mid", "wide"], 2, (0, 2)),
+             (["rep", "full", "mid"], 1, (0,)), (["mid", "rep", "full"], 1, (0, 3)), (["mid", "mid", "mid"], 0, (0,))]
+    return [c(dut, f, g, e) for dut in ("standalone", "device") for f, g, e in three]
 
 
 def verdict(pkt):
